@@ -1207,6 +1207,205 @@ func (r *runner) walRun(body []byte, typed bool) (entries string, stored string)
 	return entries, stored
 }
 
+// ---------------------------------------------------------------- sequence stage (several writes to one measurement)
+
+// seqRun: the bodies are decoded (flag) and written, in order, through the real ArrowBuffer.Write into
+// one buffer with its own object store; with withWAL the process then "dies" and the WAL is replayed
+// into a fresh buffer (as in walRun). FlushAll, Close, and every stored Parquet file is read back.
+// Returns "files=<n> rows=<sorted rows>" (+ error markers). Real clock: flush file names must be unique.
+func (r *runner) seqRun(bodies [][]byte, typed, withWAL bool) string {
+	ctx := context.Background()
+	verifclock.Real()
+	defer verifclock.Set(nowUs * 1000)
+	var dir string
+	if withWAL {
+		d, err := os.MkdirTemp(r.c.OutDir, "wal")
+		if err != nil {
+			return "err:" + err.Error()
+		}
+		dir = d
+		defer os.RemoveAll(dir)
+	}
+	return vh.Guard(func() string {
+		d1 := newDisk()
+		v1 := d1.open()
+		buf := ingest.NewArrowBuffer(walCfg(), v1, zerolog.Nop())
+		var w *wal.Writer
+		if withWAL {
+			var err error
+			w, err = wal.NewWriter(&wal.WriterConfig{WALDir: dir, SyncMode: wal.SyncModeAsync, BufferSize: 64, Logger: zerolog.Nop()})
+			if err != nil {
+				return "err:walwriter:" + err.Error()
+			}
+			buf.SetWAL(w)
+		}
+		var marks []string
+		for i, b := range bodies {
+			res, err := newDec(typed).Decode(cp(b))
+			if err != nil {
+				marks = append(marks, fmt.Sprintf("decode-rejected@%d", i))
+				continue
+			}
+			if err := buf.Write(ctx, "db", res); err != nil {
+				marks = append(marks, fmt.Sprintf("write-rejected@%d", i))
+			}
+		}
+		d := d1
+		if withWAL {
+			w.Close()
+			v1.kill()
+			buf.Close()
+			d = newDisk()
+			buf = ingest.NewArrowBuffer(walCfg(), d.open(), zerolog.Nop())
+			rowCb := createWALRecoveryCallback(buf, zerolog.Nop())
+			colCb := createColumnarRecoveryCallback(buf, zerolog.Nop())
+			if _, err := wal.NewRecovery(dir, zerolog.Nop()).RecoverWithOptions(ctx, rowCb, &wal.RecoveryOptions{ColumnarCallback: colCb}); err != nil {
+				marks = append(marks, "recovery-error")
+			}
+		}
+		if err := buf.FlushAll(ctx); err != nil {
+			marks = append(marks, "flush-error")
+		}
+		buf.Close()
+		rows, derr := d.allRows()
+		if derr != nil {
+			marks = append(marks, "readback-error:"+derr.Error())
+		}
+		files := map[string]bool{}
+		ts := make([]string, len(rows))
+		for i := range rows {
+			ts[i] = rows[i].text(nil)
+			files[rows[i].path] = true
+		}
+		sort.Strings(ts)
+		return fmt.Sprintf("files=%d rows=%d [%s] %s", len(files), len(rows), strings.Join(ts, " ; "), strings.Join(marks, ","))
+	})
+}
+
+func (r *runner) seqStage(bodies [][]byte, withWAL bool) {
+	c := r.c
+	on := r.seqRun(bodies, true, withWAL)
+	off := r.seqRun(bodies, false, withWAL)
+	hs := make([]string, len(bodies))
+	for i, b := range bodies {
+		hs[i] = hx(b)
+	}
+	canon := "seq " + strings.Join(hs, " ")
+	c.Tag("seq-stage")
+	if withWAL {
+		c.Tag("seq-stage-wal")
+	}
+	c.Case(canon, true)
+	if on != off {
+		key := "stored-differs:sequence:typed-vs-generic"
+		if withWAL {
+			key = "stored-differs-after-replay:sequence:typed-vs-generic"
+		}
+		c.Fail(key, "rows stored after a sequence of writes to one measurement (FlushAll, all files) differ with the typed fast path on/off ON="+clip(on)+" OFF="+clip(off), canon)
+		c.Tag("PROPFAIL " + key)
+	}
+}
+
+// one body of a sequence: {m:"seq", columns:{time:[…], v:[…] (class vc), w:[…] (class wc, -1 = absent)}}
+// classes: 0 int, 1 float, 2 str, 3 bool, 4 all-nil; nilAt >= 0 puts a NULL into v at that row.
+func seqBody(t0 int64, n int, vc, wc int, nilAt int) []byte {
+	elem := func(w *W, cls int, i int) {
+		switch cls {
+		case 0:
+			w.intW(int64(i+1), 0)
+		case 1:
+			w.f64(f64b(float64(i) + 1.5))
+		case 2:
+			w.str(fmt.Sprintf("s%d", i))
+		case 3:
+			w.boolv(i%2 == 0)
+		default:
+			w.nilv()
+		}
+	}
+	return mk(func(w *W) {
+		w.mapH(2, 0)
+		w.str("m")
+		w.str("seq")
+		w.str("columns")
+		k := 2
+		if wc >= 0 {
+			k = 3
+		}
+		w.mapH(k, 0)
+		w.str("time")
+		w.arrH(n, 0)
+		for i := 0; i < n; i++ {
+			w.intW(t0+int64(i), 4)
+		}
+		w.str("v")
+		w.arrH(n, 0)
+		for i := 0; i < n; i++ {
+			if i == nilAt {
+				w.nilv()
+			} else {
+				elem(w, vc, i)
+			}
+		}
+		if wc >= 0 {
+			w.str("w")
+			w.arrH(n, 0)
+			for i := 0; i < n; i++ {
+				elem(w, wc, i)
+			}
+		}
+	})
+}
+
+// edge grid of the sequence stage: every type triple A,B,C of one column over {int,float,str,bool,all-nil}
+// (3 writes inside one flush window), and column-set changes.
+func (r *runner) seqGrid() {
+	const base = int64(1_700_000_000_000_000)
+	for a := 0; a < 5; a++ {
+		for b := 0; b < 5; b++ {
+			for cc := 0; cc < 5; cc++ {
+				if a == b && b == cc {
+					continue
+				}
+				r.seqStage([][]byte{seqBody(base, 2, a, -1, -1), seqBody(base+10, 1, b, -1, -1), seqBody(base+20, 2, cc, -1, -1)}, false)
+			}
+		}
+	}
+	for _, ws := range [][]int{{-1, 0, -1}, {0, -1, 0}, {0, 1, 0}, {-1, 2, 0, -1}, {1, 1, 0, 0, 1}} {
+		var bs [][]byte
+		for i, wc := range ws {
+			bs = append(bs, seqBody(base+int64(10*i), 2, 0, wc, i%2))
+		}
+		r.seqStage(bs, false)
+		r.seqStage(bs, true)
+	}
+	r.seqStage([][]byte{seqBody(base, 2, 0, -1, -1), seqBody(base+10, 1, 1, -1, -1), seqBody(base+20, 2, 0, -1, 0)}, true)
+}
+
+func (r *runner) seqRandom(g *G, n int) {
+	const base = int64(1_700_000_000_000_000)
+	for i := 0; i < n; i++ {
+		k := g.r.Range(2, 5)
+		var bs [][]byte
+		vc, wc := g.r.Intn(5), g.r.Intn(6)-1
+		for j := 0; j < k; j++ {
+			if g.r.Chance(55) {
+				vc = g.r.Intn(5)
+			}
+			if g.r.Chance(35) {
+				wc = g.r.Intn(6) - 1
+			}
+			rows := g.r.Range(1, 3)
+			nilAt := -1
+			if g.r.Chance(30) {
+				nilAt = g.r.Intn(rows)
+			}
+			bs = append(bs, seqBody(base+int64(10*j), rows, vc, wc, nilAt))
+		}
+		r.seqStage(bs, g.r.Chance(15))
+	}
+}
+
 func (r *runner) walStage(body []byte) {
 	c := r.c
 	r.walRuns++
@@ -1717,6 +1916,14 @@ func main() {
 		b = tameBin32(b)
 		r.run(b, "kind-"+kind, "mut-"+mut)
 	}
+	nseq := 150
+	if c.Thorough() {
+		nseq = 3000
+	}
+	if os.Getenv("C02_NOEDGE") == "" {
+		r.seqGrid()
+	}
+	r.seqRandom(g, nseq)
 	c.Extra["typed_hits"] = r.hits
 	c.Extra["wal_stage_runs"] = r.walRuns
 	c.Finish("non-trivial = the typed fast path hits or the generic path gets past msgpack.Unmarshal")
